@@ -64,6 +64,7 @@ public:
         bool operator!=(const iterator& o) const { return pos != o.pos; }
         iterator& operator+=(size_t k) { pos += long(k); return *this; }
         iterator operator+(size_t k) const { iterator i(*this); i.pos += long(k); return i; }
+        long operator-(const iterator& o) const { return pos - o.pos; }
     };
     iterator begin() const { return iterator{b, 0, n}; }
     iterator end() const { return iterator{b, n, n}; }
